@@ -411,6 +411,25 @@ func genC19(c *hlib.Ctx) {
 			}
 		}
 	}
+	// 1b. large rings: 65..130 endpoints in 2..4 zones, one section per node, rf up to 8
+	for i := 0; i < c.N(8, 80) && !gaveUp(); i++ {
+		l := largeLayout(r, i%2 == 1)
+		eps := materialise(r, l, 1)
+		rf := r.Range(1, 8)
+		if r.Chance(1, 6) {
+			rf = l.total() + r.Range(-1, 1) // around the endpoint count: too few / unbalanceable
+		}
+		c.Count("large:zones:" + strconv.Itoa(len(l)))
+		if rf <= l.total() && !l.canBalance(rf) {
+			c.Count("large:expect:unbalanceable")
+		}
+		nq := 0
+		var series []seriesSpec
+		if rf <= 8 {
+			nq, series = rf, genSeriesList(r, 3)
+		}
+		c.Do(ketLine("t", rf, nq, eps, series), true)
+	}
 	// 2. the same through the exported API with the production section count (1000 per node)
 	nload := c.N(60, 600)
 	for i := 0; i < nload && !gaveUp(); i++ {
